@@ -230,7 +230,7 @@ def run_C08(rep, tier, rng):
         if cp < 0x3100:
             single.append("#[" + c + "]" + c + ":")
             single.append("//" + c + "\n_")
-    texts = corpus("C08") + valid + mal + single
+    texts = corpus("C08") + valid + mal + gen.keyword_probes() + single
     reqs = [kv.hexs(t) for t in texts]
     impl = [kv.canon_panic(x) for x in kv.run_impl("tokenize", reqs)]
     model = [kv.canon_panic(x) for x in kv.run_model("tokenize", reqs)]
